@@ -275,7 +275,7 @@ package syntax
 
 // canonicalize: same members, ranges sorted and separated, the parser's sense kept. The rewrites that introduce
 // negation record it in c.inverted.
-//@ spec func InPrefix(rs []SingleRange, n int, ch rune) bool = exists a int {mark(a)} {rs[a].First} :: 0 <= a && a < n && rs[a].First <= ch && ch <= rs[a].Last
+//@ spec func InPrefix(rs []SingleRange, n int, ch rune) bool = exists i int {mark(i)} {rs[i].First} :: 0 <= i && i < n && rs[i].First <= ch && ch <= rs[i].Last
 //@ spec func InSuffix(rs []SingleRange, i int, ch rune) bool = exists k int {mark(k)} {rs[k].First} :: i <= k && k < len(rs) && rs[k].First <= ch && ch <= rs[k].Last
 // ranges 0..n-1 are valid, ordered and separated by at least one rune
 //@ spec func PrefixSorted(rs []SingleRange, n int) bool = (forall a int {mark(a)} {rs[a].First} :: 0 <= a && a < n ==> 0 <= rs[a].First && rs[a].First <= rs[a].Last) &&
